@@ -18,25 +18,13 @@ _CALL_1D = """            max_bond=max_bond,
             optimize=optimize,
             sweep_reverse=sweep_reverse,
 """
-_DS_SIG = """    compress_opts = kwargs | ensure_dict(compress_opts)
-    compress_opts.setdefault("max_bond", max_bond)
-    compress_opts.setdefault("cutoff", cutoff)
-    compress_opts.setdefault("cutoff_mode", cutoff_mode)
-    compress_opts.setdefault("absorb", "left")
-    compress_opts.setdefault("reduced", "right")
-    compress_opts.setdefault("equalize_norms", False)
-
-    if site_tags is None:
-        site_tags = tn.site_tags
-    if sweep_reverse:"""
-
 MUTANTS = [
     # ------------------------------------------------------------------ dispatcher (fdx)
     (F, D + "dispatch[zipup-first]", '"zipup-first": tensor_network_1d_compress_zipup_oversample,',
      '"zipup-first": tensor_network_1d_compress_zipup,', "expect-fail"),                      # alias to the wrong method
     (F, D + "dispatch[src]", '"src": tensor_network_1d_compress_src,', '"src": tensor_network_1d_compress_srcmps,', "expect-fail"),
     (F, D + "dispatch[sdc-oversample]", '    "sdc-oversample": tensor_network_1d_compress_sdc_oversample,\n', "", "expect-fail"),  # key dropped
-    (F, D + "documented-methods", '    "fit-projector": tensor_network_1d_compress_fit_projector,\n', "", "expect-fail"),
+    (F, D + "documented-methods", '    "zipup-oversample": tensor_network_1d_compress_zipup_oversample,\n', "", "expect-fail"),
     (F, D + "table-values", 'tensor_network_1d_compress_fit_guess, guess="projector"', 'tensor_network_1d_compress_fit_guess, guess="zipup"',
      "expect-fail"),
     (F, D + "dispatch[dm]", _CALL_1D, _CALL_1D.replace("            cutoff=cutoff,\n", ""), "expect-fail"),           # option dropped
@@ -62,11 +50,8 @@ MUTANTS = [
      "    f_tn1d = _TN1D_COMPRESS_METHODS.get(method)\n    if f_tn1d is not None:", "benign"),
     (F, D + "generic-fallback", "        # XXX: check if system has only a long range cyclic bond\n", "        # (comment changed)\n", "benign"),
     # ------------------------------------------------------------------ option threading (ast)
-    (F, "tensor_network_1d_compress_direct::threads[max_bond]", _DS_SIG, _DS_SIG.replace('    compress_opts.setdefault("max_bond", max_bond)\n', ""),
-     "benign"),   # (this text is _do_direct_sweep's twin: first occurrence = direct; see next entries) -- replaced below
 ]
-# the option block occurs in several functions: address each by a unique neighbour line instead
-MUTANTS.pop()
+# the option block occurs in several functions: each mutant is addressed by a unique neighbour line
 MUTANTS += [
     # direct: max_bond never stored / stored conditionally / a different value / carrier not handed to the leaf
     (F, "compress_direct::threads[max_bond]",
@@ -118,13 +103,49 @@ MUTANTS += [
     (F, "mps_gate_with_mpo_dm::threads[max_bond]", "        tn, max_bond, cutoff, inplace=inplace, **compress_opts", "        tn, None, cutoff, inplace=inplace, **compress_opts", "expect-fail"),
     (F, "fit_guess::threads[cutoff]", '        # use cutoff in guess, but not in fitting\n        "cutoff": cutoff,', '        # use cutoff in guess, but not in fitting\n        "cutoff": cutoff_fit,', "expect-fail"),
     (F, "fit_guess::threads[max_bond]", "        max_bond=max_bond,\n        cutoff=cutoff_fit,\n        tn_fit=tn_fit,", "        max_bond=None,\n        cutoff=cutoff_fit,\n        tn_fit=tn_fit,", "expect-fail"),
-    (F, "census-every-table-method-analysed", "def tensor_network_1d_compress_sdc(\n    tn: TensorNetwork,\n    max_bond=None,\n    cutoff=1e-10,",
-     "def tensor_network_1d_compress_sdc(\n    tn: TensorNetwork,\n    max_bond_=None,\n    cutoff_=1e-10,", "expect-fail"),
+    # a table method that hides the options in **kwargs escapes the reflection: the census must say so
+    (F, "census-every-table-method-analysed", "_TN1D_COMPRESS_METHODS = {\n",
+     "def tensor_network_1d_compress_lazy(tn, **kwargs):\n    return tn\n\n\n_TN1D_COMPRESS_METHODS = {\n    \"lazy\": tensor_network_1d_compress_lazy,\n",
+     "expect-fail"),
     # benign
     (F, "compress_direct::threads[", "    # possibly put the array indices in canonical order (e.g. when MPS or MPO)\n    possibly_permute_(new, permute_arrays)\n\n    return new\n\n\ndef _form_final",
      "    # (comment changed)\n    possibly_permute_(new, permute_arrays)\n\n    return new\n\n\ndef _form_final", "benign"),
     (F, "compress_dm::threads[", '    compress_opts.setdefault("max_bond", max_bond)\n    compress_opts.setdefault("method", "eigh")\n    compress_opts.setdefault("positive", 1)\n    compress_opts.setdefault("cutoff", cutoff)',
      '    compress_opts.setdefault("cutoff", cutoff)\n    compress_opts.setdefault("method", "eigh")\n    compress_opts.setdefault("positive", 1)\n    compress_opts.setdefault("max_bond", max_bond)', "benign"),
+]
+
+
+# ------------------------------------------------------------------ periodic sweeps (E1 engine run by provider_cyclic)
+T = "quimb/tensor/tn1d/core.py"
+CL, CR, CC = "left_compress::[cyclic]", "right_compress::[cyclic]", "TensorNetwork1DFlat.compress::[cyclic]"
+MUTANTS += [
+    (T, CL, "            start = -1 if self.cyclic else 0", "            start = 0", "expect-fail"),            # closing bond never compressed
+    (T, CL, "            stop = self.L - 1\n\n        for i in range(start, stop):\n            self.left_compress_site(",
+     "            stop = self.L\n\n        for i in range(start, stop):\n            self.left_compress_site(", "expect-fail"),   # closing bond twice
+    (T, CL, "            self.left_compress_site(\n                i, bra=bra, create_bond=create_bond, **compress_opts\n            )",
+     "            self.left_compress_site(\n                i, bra=bra, create_bond=create_bond\n            )", "expect-fail"),   # options dropped
+    (T, CL, "            self.left_compress_site(\n                i, bra=bra, create_bond=create_bond, **compress_opts\n            )",
+     "            self.left_compress_site(\n                i + 1, bra=bra, create_bond=create_bond, **compress_opts\n            )", "expect-fail"),
+    (T, CR, "            start = self.L - (0 if self.cyclic else 1)", "            start = self.L - 1", "expect-fail"),
+    (T, CR, "            stop = 0\n\n        for i in range(start, stop, -1):\n            self.right_compress_site(",
+     "            stop = 1\n\n        for i in range(start, stop, -1):\n            self.right_compress_site(", "expect-fail"),      # bond (0,1) missed
+    (T, CR, "            self.right_compress_site(\n                i, bra=bra, create_bond=create_bond, **compress_opts\n            )",
+     "            compress_opts[\"max_bond\"] = None\n            self.right_compress_site(\n                i, bra=bra, create_bond=create_bond, **compress_opts\n            )",
+     "expect-fail"),
+    (T, CR, "            start = self.L - (0 if self.cyclic else 1)", "            start = self.L if self.cyclic else self.L - 1", "benign"),
+    # compress: the seeded-regression shapes -- a sweep that stops at the centre / loses the options, per form
+    (T, CC, "                self.right_canonize(create_bond=create_bond)\n                self.left_compress(**compress_opts)",
+     "                self.right_canonize(create_bond=create_bond)\n                self.left_compress(stop=form, **compress_opts)", "expect-fail"),
+    (T, CC, "                self.left_canonize(create_bond=create_bond)\n                self.right_compress(**compress_opts)",
+     "                self.left_canonize(create_bond=create_bond)\n                self.right_compress(stop=form, **compress_opts)", "expect-fail"),
+    (T, CC, "            self.left_compress(**compress_opts)\n\n        elif form == \"right\":", "            self.left_compress()\n\n        elif form == \"right\":", "expect-fail"),
+    (T, CC, "            self.left_compress(**compress_opts)\n\n        elif form == \"right\":",
+     "            self.left_compress(stop=self.L - 2, **compress_opts)\n\n        elif form == \"right\":", "expect-fail"),
+    (T, CC, "            self.right_compress(**compress_opts)\n\n        elif form == \"flat\":", "            self.right_canonize()\n\n        elif form == \"flat\":", "expect-fail"),
+    (T, CC, "            self.right_compress(\n                stop=self.L // 2, create_bond=create_bond, **compress_opts\n            )",
+     "            self.right_compress(\n                stop=self.L // 2 + 1, create_bond=create_bond, **compress_opts\n            )", "expect-fail"),
+    (T, CC, "        if form is None:\n            form = \"right\"\n\n        if isinstance(form, Integral):\n            if form < self.L // 2:",
+     "        if form is None:\n            form = \"right\"\n\n        if isinstance(form, Integral):\n            if form <= self.L // 2:", "benign"),
 ]
 
 
@@ -141,8 +162,11 @@ def run_mutant(tmp, relpath, suffix, old, new):
     os.makedirs(os.path.dirname(dst), exist_ok=True)
     open(dst, "w").write(src.replace(old, new, 1))
     try:
-        base = C.provider_dispatch(root=root) + C.provider_threading(root=root)
-        mut = C.provider_dispatch(root=tmp) + C.provider_threading(root=tmp)
+        if "[cyclic]" in suffix:
+            base, mut = C.provider_cyclic(root=root), C.provider_cyclic(root=tmp)
+        else:
+            base = C.provider_dispatch(root=root) + C.provider_threading(root=root)
+            mut = C.provider_dispatch(root=tmp) + C.provider_threading(root=tmp)
     finally:
         os.remove(dst)
     base_failed = {o.id for o in base if o.status == "failed"}
